@@ -1,9 +1,318 @@
 import Olla.Driver.Util
+import Olla.Model.Glob
+import Olla.Model.Registry
+import Olla.Spec.C10
 
 namespace Olla.Driver.C10
-open Lean Olla.Driver
+open Lean Olla.Driver Olla.Model Olla.Model.Registry Olla.Spec.C10
 
-/-- placeholder until the C10 driver is written -/
-def main : IO Unit := pure ()
+/-! ### ops as the harness writes them -/
+
+structure HOp where
+  kind   : String
+  e      : Nat
+  models : List (Option Model)
+  model  : Model
+  filter : Option Glob.Config
+  fail   : Bool
+  i      : Nat
+deriving Inhabited
+
+def parseModel (j : Json) : Option Model :=
+  if jisNull j then none else some { name := jstr (jget j "name"), digest := jstr (jget j "digest") }
+
+def parseFilter (j : Json) : Option Glob.Config :=
+  if jisNull j then none else
+    some { inc := (jstrList (jget j "include")).map String.toList, exc := (jstrList (jget j "exclude")).map String.toList }
+
+def parseOp (j : Json) : HOp :=
+  { kind := jstr (jget j "op"), e := jnat (jget j "e"), models := (jarr (jget j "models")).map parseModel,
+    model := (parseModel (jget j "model")).getD default, filter := parseFilter (jget j "filter"),
+    fail := jbool (jget j "fail"), i := jnat (jget j "i") }
+
+/-! ### canonical observation (what the harness snapshots) -/
+
+structure Obs where
+  models : List (List Model)
+  eps    : List (String × List Nat)
+  avail  : List (String × Bool)
+  te     : Nat
+  tm     : Nat
+  pe     : List (Nat × Nat)
+  ucat   : List (String × List String × List (Nat × String))
+  ueps   : List (String × List Nat)
+  uavail : List (String × Bool)
+deriving BEq, Repr, Inhabited
+
+def insertBy {α} (lt : α → α → Bool) (x : α) : List α → List α
+  | [] => [x]
+  | y :: ys => if lt y x then y :: insertBy lt x ys else x :: y :: ys
+def sortBy {α} (lt : α → α → Bool) (l : List α) : List α := l.foldr (insertBy lt) []
+
+def sortNat (l : List Nat) : List Nat := sortBy (· < ·) l
+def sortStr (l : List String) : List String := sortBy (· < ·) l
+def ltPair (a b : Nat × String) : Bool := a.1 < b.1 || (a.1 == b.1 && a.2 < b.2)
+
+def parseObs (j : Json) (ns : List String) : Obs :=
+  let m := fun (o : Json) => ns.map (fun n => (n, sortNat (jnatList (jget o n))))
+  let b := fun (o : Json) => ns.map (fun n => (n, jbool (jget o n)))
+  { models := (jarr (jget j "models")).map (fun l => (jarr l).filterMap parseModel),
+    eps := m (jget j "eps"), avail := b (jget j "avail"), te := jnat (jget j "te"), tm := jnat (jget j "tm"),
+    pe := (jarr (jget j "pe")).map (fun r => (jnat ((jarr r).getD 0 Json.null), jnat ((jarr r).getD 1 Json.null))),
+    ucat := sortBy (fun a b => a.1 < b.1) ((jarr (jget j "ucat")).map (fun u =>
+      (jstr (jget u "id"), sortStr (jstrList (jget u "aliases")),
+        sortBy ltPair ((jarr (jget u "sources")).map (fun s => ((jstr ((jarr s).getD 0 Json.null)).toNat!, jstr ((jarr s).getD 1 Json.null))))))),
+    ueps := m (jget j "ueps"), uavail := b (jget j "uavail") }
+
+def modelObs (u : Unified) (n : Nat) (ns : List String) : Obs :=
+  { models := (List.range n).map u.base.modelsFor,
+    eps := ns.map (fun x => (x, sortNat (u.base.endpointsFor x))),
+    avail := ns.map (fun x => (x, u.base.isAvailable x)),
+    te := u.base.stats.totalEndpoints, tm := u.base.stats.totalModels,
+    pe := sortBy (fun a b => a.1 < b.1) u.base.stats.perEndpoint,
+    ucat := sortBy (fun a b => a.1 < b.1) (u.catalogue.map (fun o => (o.id, sortStr o.aliases, sortBy ltPair (o.sources.map (fun s => (s.url, s.native)))))),
+    ueps := ns.map (fun x => (x, sortNat (u.endpointsFor x))),
+    uavail := ns.map (fun x => (x, u.isAvailable x)) }
+
+/-! ### the model world: registry + the discovery service's GlobFilter cache -/
+
+structure World where
+  u     : Unified
+  cache : Glob.Cache
+deriving Inhabited
+
+/-- one harness op on the model. `seq`: a spawned unification runs at once. Returns the `ok` flag too. -/
+def stepModel (seq : Bool) (w : World) (o : HOp) : World × Bool :=
+  let reg := fun (w : World) (e : Nat) (ms : List (Option Model)) =>
+    let (u', ok) := w.u.registerModels active e ms
+    let u'' := if ok && seq then u'.runTask active (u'.pending.length - 1) else u'
+    ({ w with u := u'' }, ok)
+  match o.kind with
+  | "reg" => reg w o.e o.models
+  | "disc" =>
+    if o.fail then (w, false) else
+    let (ms, c) := filterListing Glob.activeKey w.cache o.filter (o.models.filterMap id)
+    -- the discovery path has no nil entries; an all-filtered listing is the empty listing
+    reg { w with cache := c } o.e (ms.map some)
+  | "reg1" => let (b, ok) := w.u.base.registerModel o.e o.model; ({ w with u := { w.u with base := b } }, ok)
+  | "remove" => ({ w with u := w.u.removeEndpoint active o.e }, true)
+  | "run" => ({ w with u := w.u.runTask active o.i }, true)
+  | _ => (w, false)      -- badurl
+
+/-- the same op as the property sees it (pure filter semantics) -/
+def specOp (o : HOp) : Op :=
+  match o.kind with
+  | "reg" => .reg o.e o.models
+  | "disc" => if o.fail then .failed else .reg o.e (((o.models.filterMap id).filter (passes o.filter)).map some)
+  | "reg1" => .reg1 o.e o.model
+  | "remove" => .remove o.e
+  | "run" => .run o.i
+  | _ => .failed
+
+def viewOf (o : Obs) : View :=
+  { models := fun e => o.models.getD e [],
+    endpoints := fun n => ((o.eps.find? (·.1 == n)).map (·.2)).getD [],
+    stats := { totalEndpoints := o.te, totalModels := o.tm, perEndpoint := o.pe } }
+
+def catOf (o : Obs) : List UModel :=
+  o.ucat.map (fun (id, al, src) => { id := id, aliases := al, digest := "", sources := src.map (fun (u, n) => ⟨u, n⟩) })
+
+/-- first violated clause on one snapshot (`quiescent`: no unification outstanding) -/
+def checkObs (n : Nat) (ns : List String) (r : Ref) (seen : List Model) (o : Obs) (quiescent : Bool) (complete : Bool := true) : Option String :=
+  let us := List.range n
+  let v := viewOf o
+  if !listingOk us r v then some "listing"
+  else if !lookupOk us ns r v then some "lookup"
+  else if !statsOk us r v then some "stats"
+  else if !(ns.all (fun x => (((o.avail.find? (·.1 == x)).map (·.2)).getD false) == !(listersExact us r x).isEmpty)) then some "available"
+  else if !quiescent then none
+  else if !catalogueSound r (catOf o) then some "catalogue-sound"
+  else if !(ns.all (fun x => unifiedLookupOk us r seen x (((o.ueps.find? (·.1 == x)).map (·.2)).getD []))) then some "unified-lookup"
+  else if !(ns.all (fun x =>
+      let a := ((o.uavail.find? (·.1 == x)).map (·.2)).getD false
+      ((listersExact us r x).isEmpty || a) && (!(listersRelated us r seen x).isEmpty || !a))) then some "unified-available"
+  else if complete && !catalogueComplete us r (catOf o) then some "catalogue-complete"
+  else none
+
+structure Acc where
+  w       : World
+  ref     : Ref
+  seen    : List Model := []
+  agree   : Bool := true
+  fail    : Option (String × String) := none   -- (sig, note)
+  pending : List Nat := []                     -- forced mode: endpoint of each outstanding unification
+  reorder : Bool := false                      -- some unification ran ahead of an older one of its endpoint / after a removal
+  nsteps  : Nat := 0
+  single  : Bool := false                      -- a RegisterModel (single model, never unified, no production caller) was accepted
+
+def classify (clause : String) (o : HOp) (reorder : Bool) : String :=
+  if clause == "listing" || clause == "lookup" || clause == "stats" || clause == "available" then
+    if o.kind == "reg" && (specOp o).rejected then "rejected-update-mutates-index"
+    else if o.kind == "disc" && o.filter.isSome then "glob-cache-key-collision"
+    else "base-" ++ clause ++ "-wrong"
+  else if clause == "catalogue-complete" then (if reorder then "unified-async-out-of-order" else "unified-misses-listed-model")
+  else if reorder then "unified-async-out-of-order" else "unified-keeps-dropped-source"
+
+def describe (o : HOp) : String :=
+  let ms := o.models.map (fun m => match m with | some x => (if x.digest == "" then x.name else x.name ++ "@" ++ x.digest) | none => "<nil>")
+  s!"{o.kind} e{o.e} {ms}" ++ (if o.kind == "reg1" then s!" {o.model.name}" else "") ++ (if o.kind == "run" then s!" #{o.i}" else "")
+
+def stepCase (seq : Bool) (n : Nat) (ns : List String) (acc : Acc) (o : HOp) (stepJ : Json) : Acc :=
+  let (w', ok) := stepModel seq acc.w o
+  let implObs := parseObs (jget stepJ "obs") ns
+  let implOk := jbool (jget stepJ "ok")
+  let mObs := modelObs w'.u n ns
+  let agree := acc.agree && (implObs == mObs) && (implOk == ok || o.kind == "run")
+  let sop := specOp o
+  let ref' := acc.ref.step sop
+  let seen' := if sop.rejected then acc.seen else acc.seen ++ sop.models
+  -- forced-mode bookkeeping of outstanding unifications (by endpoint), from the IMPLEMENTATION's answers
+  let (pending', reorder') :=
+    if seq then ([], false) else
+    match o.kind with
+    | "reg" => (if implOk then acc.pending ++ [o.e] else acc.pending, acc.reorder)
+    | "run" =>
+      (match acc.pending[o.i]? with
+       | some e => (acc.pending.eraseIdx o.i, acc.reorder || (acc.pending.take o.i).contains e)
+       | none => (acc.pending, acc.reorder))
+    | "remove" => (acc.pending, acc.reorder || acc.pending.contains o.e)
+    | _ => (acc.pending, acc.reorder)
+  let single' := acc.single || (o.kind == "reg1" && implOk)
+  let fail' := match acc.fail with
+    | some f => some f
+    | none =>
+      match checkObs n ns ref' seen' implObs (seq || pending'.isEmpty) (!single') with
+      | none => none
+      | some clause => some (classify clause o reorder', s!"after step {acc.nsteps} ({describe o}): {clause} disagrees with the last accepted listings")
+  { w := w', ref := ref', seen := seen', agree := agree, fail := fail', pending := pending', reorder := reorder', nsteps := acc.nsteps + 1, single := single' }
+
+def permutations {α} : List α → List (List α)
+  | [] => [[]]
+  | x :: xs => (permutations xs).flatMap (fun p => (List.range (p.length + 1)).map (fun i => p.take i ++ [x] ++ p.drop i))
+
+/-- every world reachable by issuing `ops` in order (no waiting) while the spawned unifications run at
+    arbitrary later points; all of them have run at the end. -/
+def explore : Nat → World → List HOp → List World
+  | 0, w, _ => [w]
+  | fuel + 1, w, ops =>
+    let runs := (List.range w.u.pending.length).flatMap (fun i => explore fuel { w with u := w.u.runTask active i } ops)
+    match ops with
+    | [] => if w.u.pending.isEmpty then [w] else runs
+    | o :: rest => explore fuel (stepModel false w o).1 rest ++ runs
+
+/-- the schedule in which every unification runs right after its registration -/
+def fifoWorld (w : World) (ops : List HOp) : World := ops.foldl (fun w o => (stepModel true w o).1) w
+
+def handle (j : Json) : IO Unit := do
+  let case := jnat (jget j "case")
+  let kind := jstr (jget j "kind")
+  let impl := jget j "impl"
+  match kind with
+  | "hist" =>
+    let seq := jstr (jget j "mode") != "forced"
+    if !seq && active.inOrder == .fixed then
+      -- the forced schedules go through an accessor that bypasses RegisterModels; with the ordering fix the
+      -- code no longer has such schedules (burst / conc cover the fixed tree with the real scheduler)
+      emit case true true "forced.skipped-order-fixed"
+    else
+    let n := jnat (jget j "n")
+    let ns := jstrList (jget j "names")
+    let ops := (jarr (jget j "ops")).map parseOp
+    let steps := jarr (jget impl "steps")
+    let acc := (ops.zip steps).foldl (fun acc (o, s) => stepCase seq n ns acc o s) { w := { u := Unified.empty, cache := [] }, ref := Ref.empty }
+    let kinds := ops.map (·.kind)
+    let branch := (if seq then "seq" else "forced") ++
+      (if ops.any (fun o => (specOp o).rejected && o.kind == "reg") then "+rejected" else "") ++
+      (if kinds.contains "remove" then "+remove" else "") ++ (if kinds.contains "disc" then "+disc" else "") ++
+      (if acc.reorder then "+reordered" else "")
+    let agree := acc.agree && steps.length == ops.length
+    match acc.fail with
+    | none => emit case agree true branch
+    | some (sig, note) => emit case agree false branch sig note
+  | "conc" =>
+    let n := jnat (jget j "n")
+    let ns := jstrList (jget j "names")
+    let rounds := (jarr (jget j "rounds")).map (fun r => (jarr r).map parseOp)
+    let steps := jarr (jget impl "steps")
+    -- per round: some order of the round's operations must explain the snapshot at quiescence
+    let init : World × (Ref × List Model) × Bool × Option (String × String) := ({ u := Unified.empty, cache := [] }, (Ref.empty, []), true, none)
+    let (_, _, agree, fail) := (rounds.zip steps).foldl (fun (st : World × (Ref × List Model) × Bool × Option (String × String)) (rs : List HOp × Json) =>
+        let (w, (ref, seen), agree, fail) := st
+        let (ops, s) := rs
+        let implObs := parseObs (jget s "obs") ns
+        let cands := (permutations ops).map (fun p => p.foldl (fun w o => (stepModel true w o).1) w)
+        let hit := cands.find? (fun w' => modelObs w'.u n ns == implObs)
+        let w' := (hit.getD (cands.headD w))
+        let ref' := ops.foldl (fun r o => r.step (specOp o)) ref      -- distinct endpoints: order-free
+        let seen' := ops.foldl (fun sn o => if (specOp o).rejected then sn else sn ++ (specOp o).models) seen
+        let fail' := match fail with
+          | some f => some f
+          | none => (checkObs n ns ref' seen' implObs true).map (fun c =>
+              (classify c (ops.headD default) false, s!"after a concurrent round {ops.map describe}: {c} disagrees with the last accepted listings"))
+        (w', (ref', seen'), agree && hit.isSome, fail')) init
+    match fail with
+    | none => emit case agree true "conc"
+    | some (sig, note) => emit case agree false "conc" sig note
+  | "burst" =>
+    let n := jnat (jget j "n")
+    let ns := jstrList (jget j "names")
+    let rounds := (jarr (jget j "rounds")).map (fun r => (jarr r).map parseOp)
+    let steps := jarr (jget impl "steps")
+    let init : World × (Ref × List Model) × Bool × Bool × Option (String × String) :=
+      ({ u := Unified.empty, cache := [] }, (Ref.empty, []), true, false, none)
+    let (_, _, agree, reordered, fail) := (rounds.zip steps).foldl
+      (fun (st : World × (Ref × List Model) × Bool × Bool × Option (String × String)) (rs : List HOp × Json) =>
+        let (w, (ref, seen), agree, reordered, fail) := st
+        let (ops, s) := rs
+        let implObs := parseObs (jget s "obs") ns
+        let oks := (jarr (jget s "oks")).map jbool
+        let fifo := fifoWorld w ops
+        let fifoHit := modelObs fifo.u n ns == implObs
+        let hit := if fifoHit then some fifo else (explore (2 * ops.length + 2) w ops).find? (fun w' => modelObs w'.u n ns == implObs)
+        let w' := hit.getD fifo
+        let okAgree := oks == ops.map (fun o => !(specOp o).rejected)
+        let ref' := ops.foldl (fun r o => r.step (specOp o)) ref
+        let seen' := ops.foldl (fun sn o => if (specOp o).rejected then sn else sn ++ (specOp o).models) seen
+        let reordered' := reordered || !fifoHit
+        let fail' := match fail with
+          | some f => some f
+          | none => (checkObs n ns ref' seen' implObs true).map (fun c =>
+              (classify c ((ops.find? (fun o => o.kind == "reg" && (specOp o).rejected)).getD (ops.getLastD default)) reordered', s!"after the burst {ops.map describe}: {c} disagrees with the last accepted listings"))
+        (w', (ref', seen'), agree && hit.isSome && okAgree, reordered', fail')) init
+    let branch := "burst" ++ (if reordered then "+reordered" else "")
+    match fail with
+    | none => emit case agree true branch
+    | some (sig, note) => emit case agree false branch sig note
+  | "glob" =>
+    let looks := (jarr (jget j "looks")).map (fun l =>
+      ((jstr (jget l "name")).toList, ({ inc := (jstrList (jget l "include")).map String.toList, exc := (jstrList (jget l "exclude")).map String.toList } : Glob.Config)))
+    let res := (jarr (jget impl "res")).map jbool
+    let (mres, _) := looks.foldl (fun (acc : List Bool × Glob.Cache) (l : Glob.Str × Glob.Config) =>
+        let (m, c) := Glob.matchesCfg Glob.activeKey acc.2 l.2 l.1; (acc.1 ++ [m], c)) ([], [])
+    let bad := (looks.zip res).find? (fun (l, a) => !filterOk l.2 l.1 a)
+    let branch := "glob." ++ (if looks.any (fun l => (l.1.toString.splitOn "::").length > 1) then "dcolon" else "plain")
+    match bad with
+    | none => emit case (res == mres) true branch
+    | some (l, a) =>
+      emit case (res == mres) false branch "glob-cache-key-collision"
+        s!"Matches(name={String.ofList l.1}, include={l.2.inc.map String.ofList}, exclude={l.2.exc.map String.ofList}) answered {a} after the earlier lookups of this filter; without history it is {Glob.pureMatches l.2 l.1}"
+  | "globfn" =>
+    let p := (jstr (jget j "p")).toList
+    let strs := (jstrList (jget j "strs")).map String.toList
+    let m := (jarr (jget impl "m")).map jbool
+    let valid := jbool (jget impl "valid")
+    let mm := strs.map (fun s => Glob.matchesGlob s p)
+    let agree := m == mm && valid == Glob.validPattern p && jbool (jget impl "valid_ex") == Glob.validPattern p
+    -- documented meaning, for patterns the validator accepts
+    let bad := if valid then (strs.zip m).find? (fun (s, a) => a != globMeaning s p) else none
+    let branch := if !valid then "globfn.invalid" else if p.contains '*' then "globfn.star" else "globfn.exact"
+    match bad with
+    | none => emit case agree true branch
+    | some (s, a) =>
+      emit case agree false branch "glob-meaning"
+        s!"MatchesGlob({String.ofList s}, {String.ofList p}) = {a}, documented meaning {globMeaning s p}"
+  | _ => emit case false true "unknown-kind" "" s!"unknown kind {kind}"
+
+def main : IO Unit := do forLines (← IO.getStdin) handle
 
 end Olla.Driver.C10
